@@ -98,6 +98,13 @@ def cases(seed, tier, shard, nshards):
                 else:
                     pre += 'T $a \\mbox{%s} b$ T\n\n' % body
                     mp.append(['Zm%dy' % (q + 1), subst(body), 'a text box in mathematics'])
+        if r.random() < 0.2:
+            # three levels: a text box in mathematics in a text box; what follows the formula in the outer box is running text again,
+            # and the next formula of the document is mathematics
+            box = r.choice(['textbf', 'mbox', 'textit'])
+            pre += 'T \\%s{T $a \\mbox{T} b$ Zm7y---z} T\n\nT ${Zm8y--z}$ T\n\n' % box
+            mp.append(['Zm7y', subst('Zm7y---z'), 'running text after mathematics that holds a box, inside \\%s' % box])
+            mp.append(['Zm8y', 'Zm8y--z', 'mathematics in the paragraph after such a box'])
         yield {'src': docs.latex(d, body_prefix=pre, body_suffix=suf, tight=tight), 'order': docs.markers(d), 'probes': probes_of(d), 'verbs': verbs_of(d), 'cls': d['cls'],
                'twins': tw, 'modeprobes': mp}
 
